@@ -297,6 +297,53 @@ def fancy_leg(run, rng, tier, har, drv, replay=None):
             "lossy_cases": len(ls), "lossy_disagreements": len(lbad)}
 
 
+def narrow_pty_leg(run):
+    """a terminal that reports fewer than 10 columns (a freshly opened pty reports 0): n2 must not accept that width; a command that
+    has printed a line and is still running is on display when frames are painted"""
+    import fcntl, pty, select, shutil, struct, tempfile, termios, time
+    n2, out = build_n2_binary()
+    if n2 is None:
+        return 0
+    n = 0
+    for cols in (0, 1, 5, 9):
+        d = tempfile.mkdtemp(prefix="n2verif-c20-%d-" % os.getpid())
+        try:
+            open(os.path.join(d, "build.ninja"), "w").write(
+                "rule say\n  command = echo a line of output that is longer than nine columns; sleep 1.2; touch $out\n  description = SAY $out\nbuild o1: say\nbuild o2: say\n")
+            pid, fd = pty.fork()
+            if pid == 0:
+                try:
+                    fcntl.ioctl(0, termios.TIOCSWINSZ, struct.pack("HHHH", 24, cols, 0, 0))
+                    os.chdir(d)
+                    os.execve(n2, [n2, "-j", "2"], ENV)
+                finally:
+                    os._exit(127)
+            buf, t0 = b"", time.time()
+            while time.time() - t0 < 60:
+                r, _, _ = select.select([fd], [], [], 0.2)
+                if r:
+                    try:
+                        chunk = os.read(fd, 65536)
+                    except OSError:
+                        break
+                    if not chunk:
+                        break
+                    buf += chunk
+            else:
+                os.kill(pid, 9)
+            _, status = os.waitpid(pid, 0)
+            os.close(fd)
+            rc = os.waitstatus_to_exitcode(status)
+            txt = buf.decode("utf-8", "replace")
+            n += 1
+            if rc != 0 or "panicked" in txt or "ran 2 tasks" not in txt or not all(os.path.exists(os.path.join(d, o)) for o in ("o1", "o2")):
+                run.report_failure(None, "on a terminal reporting %d columns the display broke the build (exit %d%s)" % (cols, rc, ", panic" if "panicked" in txt else ""),
+                                   {"suite": "narrow-pty", "cols": cols, "rc": rc, "tail": txt[-500:]})
+        finally:
+            shutil.rmtree(d, ignore_errors=True)
+    return n
+
+
 def main(tier, seed, replay=None):
     run = Run(PROP, tier, seed, "proof")
     rng = random.Random(seed)
@@ -434,7 +481,7 @@ def main(tier, seed, replay=None):
     rp_f = json.load(open(replay))["replay"] if replay else None
     if not replay or rp_f.get("suite") in ("fancy",):
         stats.update(fancy_leg(run, rng, tier, har, drv, rp_f))
-    npty = (pty_leg(run, tier) + pty_resize_leg(run)) if not replay else 0
+    npty = (pty_leg(run, tier) + pty_resize_leg(run) + narrow_pty_leg(run)) if not replay else 0
     stats["pty_runs"] = npty
     run.coverage.update(info)
     run.coverage.update({
